@@ -80,6 +80,8 @@ MANIFESTS = {
     # setup.py is a manifest AND holds the very trigger whose fix needs the new package: the same codemod rewrites the
     # file and then adds the dependency to it (filled in by project_files: the program text followed by the setup() call)
     "setuppy-self": {"setup.py": None},
+    # setup.py that starts with a UTF-8 byte order mark
+    "setuppy-bom": {"setup.py": '\ufefffrom setuptools import setup\n\nsetup(\n    name="demo",\n    install_requires=[\n        "requests",\n    ],\n)\n'},
     # trailing blank lines after the last requirement
     "requirements-blanktail": {"requirements.txt": "requests==2.31.0\nflask>=2.0\n\n\n"},
     "setupcfg": {"setup.cfg": "[metadata]\nname = demo\n\n[options]\ninstall_requires =\n    requests\n    flask>=2.0\n"},
